@@ -28,7 +28,10 @@ ALIASERS: Dict[str, Optional[Callable[[str], str]]] = {"identity": None, "camelC
 def new_realm(tag: str, extra: Tuple[Obj, ...] = ()) -> M.Realm:
     realm = M.Realm(tag)
     M.install_typing(realm)
-    for o in ALL_OBJS + list(extra):
+    for o in ALL_OBJS:
+        M.realize(o, realm)
+    install_ext(realm)
+    for o in extra:
         M.realize(o, realm)
     return realm
 
@@ -148,12 +151,32 @@ def call(f, *a, **kw) -> Tuple[str, Any]:
         return ("crash", f"{type(e).__name__}: {e}")
 
 
+class _NaN:
+    def __repr__(self):
+        return "NaN"
+
+
+NAN = _NaN()
+
+
+def denan(x):
+    """float('nan') replaced by one token inside built-in containers, so that sets holding distinct
+    nan objects compare equal"""
+    if isinstance(x, float) and x != x:
+        return NAN
+    if type(x) in (list, tuple, set, frozenset):
+        return type(x)(denan(y) for y in x)
+    if type(x) is dict:
+        return {denan(k): denan(v) for k, v in x.items()}
+    return x
+
+
 def same_outcome(a: Tuple[str, Any], b: Tuple[str, Any]) -> bool:
     """identical results: equal values with the same runtime classes, or identical error lists"""
     if a[0] != b[0]:
         return False
     if a[0] == "ok":
-        return deep_eq(a[1], b[1])
+        return deep_eq(denan(a[1]), denan(b[1]))
     if a[0] == "err":
         return a[1] == b[1]
     return a[1] == b[1]
@@ -162,3 +185,95 @@ def same_outcome(a: Tuple[str, Any], b: Tuple[str, Any]) -> bool:
 def rs(x, n: int = 300) -> str:
     s = repr(x)
     return s if len(s) <= n else s[: n - 3] + "..."
+
+
+# ---------------------------------------------------------------------------------------------
+# extensions of the description language (wrapped around model.py, which is not edited): the real
+# class is registered in the Realm under its name and referred to with `M.Ref(name)`;
+# `ExtRef` (subclass of `M.Ref_`) gives these descriptions their reference semantics.
+
+
+@dataclasses.dataclass(frozen=True)
+class SubP(M.TD):
+    """class <name>(<base>): pass -- a subclass of a primitive: conforms like the primitive, the
+    image is an instance of the subclass"""
+
+    name: str
+    base: str  # int | str | float
+
+
+@dataclasses.dataclass(frozen=True)
+class EnmMix(M.TD):
+    """class <name>(<base>, Enum) -- IntEnum-like / str-Enum: by value, like Enm"""
+
+    name: str
+    base: str  # int | str
+    members: Tuple[Tuple[str, Any], ...]
+
+
+USER_ID = SubP("UserIdSub", "int")
+SLUG = SubP("SlugSub", "str")
+RATIO = SubP("RatioSub", "float")
+LEVEL = EnmMix("LevelMix", "int", (("LOW", 1), ("HIGH", 2)))
+MOOD = EnmMix("MoodMix", "str", (("OK", "ok"), ("KO", "ko")))
+EXT_DESCS = (USER_ID, SLUG, RATIO, LEVEL, MOOD)
+R_USER_ID, R_SLUG, R_RATIO, R_LEVEL, R_MOOD = (Ref(x.name) for x in EXT_DESCS)
+POST = Obj("dataclass", "PostSub", (Fld("author", R_USER_ID), Fld("slug", R_SLUG), Fld("level", Opt(R_LEVEL), has_default=True, default=None), Fld("ratios", Coll("list", R_RATIO), factory="list")))
+EXT_OBJS = (POST,)
+EXT_TYPES: List[Any] = [R_USER_ID, R_SLUG, R_RATIO, R_LEVEL, R_MOOD, Coll("list", R_USER_ID), Opt(R_SLUG), Mapp(P.STR, R_RATIO), Mapp(R_SLUG, P.INT), Tup((R_USER_ID, R_MOOD)), Coll("set", R_LEVEL), Uni((R_USER_ID, R_SLUG)), POST, Coll("list", POST)]
+# valid data for the extension types (pools.valid_samples does not know them)
+EXT_SAMPLES: Dict[Any, List[Any]] = {
+    R_USER_ID: [0, 42],
+    R_SLUG: ["ab", ""],
+    R_RATIO: [2.5, 1],
+    R_LEVEL: [1, 2],
+    R_MOOD: ["ok", "ko"],
+    Coll("list", R_USER_ID): [[], [1, 2]],
+    Opt(R_SLUG): [None, "ab"],
+    Mapp(P.STR, R_RATIO): [{}, {"k": 1.5, "l": 2}],
+    Mapp(R_SLUG, P.INT): [{}, {"k": 1}],
+    Tup((R_USER_ID, R_MOOD)): [[7, "ok"]],
+    Coll("set", R_LEVEL): [[1, 2], [2]],
+    Uni((R_USER_ID, R_SLUG)): [3, "x"],
+    POST: [{"author": 1, "slug": "s"}, {"author": 2, "slug": "a-b", "level": 2, "ratios": [0.5, 1]}],
+    Coll("list", POST): [[{"author": 1, "slug": ""}, {"author": 2, "slug": "z", "level": 1}]],
+}
+
+
+def install_ext(realm: M.Realm):
+    """build the real classes of the extension descriptions in the realm"""
+    for x in EXT_DESCS:
+        if x.name in realm.built:
+            continue
+        base = {"int": int, "str": str, "float": float}[x.base]
+        if isinstance(x, SubP):
+            cls = type(x.name, (base,), {"__module__": realm.name})
+        else:
+            cls = enum.Enum(x.name, list(x.members), module=realm.name, type=base)
+        setattr(realm.module, x.name, cls)
+        realm.built[x.name] = cls
+        realm.descs[x.name] = x  # type: ignore
+    for o in EXT_OBJS:
+        M.realize(o, realm)
+
+
+class ExtRef(M.Ref_):
+    """reference deserialization extended to SubP / EnmMix"""
+
+    def deser(self, td, d, c=None):
+        if isinstance(td, SubP):
+            return self.realm.built[td.name](self.deser(Prim(td.base), d, c))
+        if isinstance(td, EnmMix):
+            return self.deser(Enm(td.name, td.members), d, c)
+        return super().deser(td, d, c)
+
+
+def ext_ref_deserialize(td, d, realm: M.Realm, opts: M.Opts):
+    try:
+        return ("ok", ExtRef(realm, opts).deser(td, d))
+    except M.Rejected as r:
+        return ("err", r.err.flat())
+
+
+def ext_samples(td) -> List[Any]:
+    return [copy.deepcopy(s) for s in EXT_SAMPLES.get(td, [])]
